@@ -41,3 +41,19 @@ void h_pentagon_faces_enum(void) {
     }
     __CPROVER_assert(0, "canary pentagon faces enum");
 }
+
+/* one pentagon per job (base cell index and resolution are compile-time constants): the REAL function with all its real callees on a concrete
+ * input; 12 x 16 jobs are the whole set of pentagons, so the family is a complete enumeration, not a bound */
+#ifdef PENT_P
+void h_pentagon_faces_one(void) {
+    H3Index h = S_CELL0(PENT_R, S_PENT_I(PENT_P));
+    int out[5] = {-7, -7, -7, -7, -7};
+    H3Error e = getIcosahedronFaces(h, out);
+    __CPROVER_assert(e == 0, "getIcosahedronFaces succeeds on every pentagon");
+    __CPROVER_assert(out[0] >= 0 && out[0] <= 19 && out[1] >= 0 && out[1] <= 19 && out[2] >= 0 && out[2] <= 19 && out[3] >= 0 && out[3] <= 19 &&
+                     out[4] >= 0 && out[4] <= 19, "a pentagon reports five face numbers in 0..19");
+    __CPROVER_assert(out[0] != out[1] && out[0] != out[2] && out[0] != out[3] && out[0] != out[4] && out[1] != out[2] && out[1] != out[3] &&
+                     out[1] != out[4] && out[2] != out[3] && out[2] != out[4] && out[3] != out[4], "the five faces of a pentagon are distinct");
+    __CPROVER_assert(0, "canary pentagon faces one");
+}
+#endif
